@@ -314,6 +314,36 @@ def sweep_function_codes(run, r, uniq):
             run.case(h64(('fc', pdu)), True, sample={'pdu': pdu.hex(), 'verdict': 'agrees' if ok else 'differs'}, sample_class=('fc', fc >= 0x80))
 
 
+def front_function_codes(run, r):
+    """unassigned function codes and over-limit quantities through the real server objects while a second server of the process
+    serves vendor function codes and a lenient FC3 of its own (custom_functions): exception 01 / 03 all the same"""
+    w = World(small_layout(r, 3))
+    uid = w.uid
+    for front, framing in FRONTS:
+        repo.reset_globals()
+        probes = [bytes([fc]) + d for fc in (0x41, 0x55, 0x64, 0x09, 0x7F) for d in (b'', b'\x00\x01\x00\x02')]
+        probes.append(S.encode({'dir': REQ, 'fc': 3, 'address': 0, 'count': 126}))
+        probes.append(S.encode({'dir': REQ, 'fc': 3, 'address': 0, 'count': 200}))
+        before = w.dump()
+        for i, pdu in enumerate(probes):
+            if framing in ('binary',) and any(b in (0x7B, 0x7D) for b in pdu):
+                continue
+            if framing == 'rtu' and pdu[0] not in (3,):
+                continue                       # (the RTU framer sizes frames of unknown function codes by guesswork: C06/C11 matter)
+            res = FE.feed(front, framing, w.ctx, [ADU.build(framing, uid, pdu, tid=i + 1)])
+            got = res.out if front in FE.STREAM else b''.join(d for d, _ in res.datagrams)
+            want = ADU.build(framing, uid, bytes([pdu[0] | 0x80, 3 if pdu[0] == 3 else 1]), tid=i + 1)
+            run.count('front_function_code_probes')
+            case = {'kind': 'front-fc', 'front': front, 'framing': framing, 'pdu': pdu, 'layout': w.layout}
+            ok = got == want and w.dump() == before
+            run.case(h64(('front-fc', front, framing, pdu)), True, sample={'front': front, 'framing': framing, 'pdu': pdu.hex(), 'verdict': 'agrees' if ok else 'differs'},
+                     sample_class=('front-fc', front))
+            if not ok:
+                run.violation('front-fc:%s/%s:%s' % (front, framing, 'fc3-limit' if pdu[0] == 3 else 'unassigned'), case,
+                              'request %s answered with %s, expected %s%s' % (pdu.hex(), got.hex(), want.hex(), '' if w.dump() == before else '; the store changed'))
+                before = w.dump()
+
+
 def one(run, w, m, cls):
     case = {'kind': 'sweep', 'layout': w.layout, 'm': m, 'note': 'state differs from the initial layout (preceding history not recorded)'}
     try:
@@ -433,6 +463,7 @@ def run(run):
     sweep_addresses(run, r, uniq)
     if run.mine(1):
         sweep_function_codes(run, r, uniq)
+        front_function_codes(run, r)
     injection(run, r, uniq)
     fl = (lambda q: q) if run.shard is None else (lambda q: max(1, q // 40))
     for code, q in ((1, 300), (2, 1000), (3, 5000), (4, 100), (0, 3000)):
@@ -444,7 +475,9 @@ def run(run):
 def replay(run, case):
     lay = case['layout']
     lay['units'] = {int(k): v for k, v in lay['units'].items()}
-    if case['kind'] == 'inject':
+    if case['kind'] == 'front-fc':
+        front_function_codes(run, run.rng('main'))      # (the whole probe set is replayed: it is small and needs no history)
+    elif case['kind'] == 'inject':
         w = World(lay)
         inj = Injector(w.blocks[w.uid])
         inj.exc_class = {c.__name__: c for c in Injector.CLASSES}.get(case.get('exc', 'RuntimeError'), RuntimeError)
